@@ -15,10 +15,10 @@ def build(tier, seed):
     thorough = tier == "thorough"
     cases = []
     mx = suites.matrix()
-    for r in range(20 if thorough else 2):
+    for r in range(60 if thorough else 2):
         for i, (v, code, name, p) in enumerate(mx):
             cases.append({"id": f"tls{r}-{suites.VNAME[v]}-{code:04X}", "kind": "tls", "v": v, "code": code, "rep": r})
-    for i in range(6000 if thorough else 500):
+    for i in range(40000 if thorough else 500):
         cases.append({"id": f"quic-{i}", "kind": "quic", "i": i})
 
     def evalfn(case):
